@@ -52,13 +52,7 @@ pub fn run(ctx: &Ctx) -> Report {
         }
         for alpha in alphas {
             for automatic in [false, true] {
-                let name = SignSys { alpha: alpha.clone(), automatic, oracle: Oracle::LockStep }.name();
-                let sr = crate::xcheck::stateright_unique_states(SignSys { alpha: alpha.clone(), automatic, oracle: Oracle::LockStep });
-                let mine = runs.iter().find(|r| r["run"] == json!(name)).and_then(|r| r["states"].as_u64()).unwrap_or(0);
-                xs.push(json!({"run": name, "stateright_unique_states": sr, "own_explorer_states": mine, "equal": sr == mine}));
-                if sr != mine {
-                    rep.machinery_errors.push(format!("E5 cross-check: stateright found {} unique states for {}, the own explorer {}", sr, name, mine));
-                }
+                crate::xcheck::cross_check(&mut rep, &mut xs, &runs, SignSys { alpha: alpha.clone(), automatic, oracle: Oracle::LockStep });
             }
         }
     }
